@@ -15,7 +15,7 @@ func checkC06(c *Ctx) {
 	c.runWireMC("AlphaSmall", c.pick(3, 4), "concatenation = merge on the block format")
 	asp := map[string]bool{"decode": true}
 	mx := &SketchMatrix{Mappings: mappingMatrix(c.alphas(), nil), Reals: exactRealKinds, Modes: []string{"every"}, Aspects: asp}
-	tree := &SketchGen{Init: plainExact(2, "plain"), Tokens: []int{10, 15, -11, 0}, Weights: []int{6, 132}, Ops: []string{"Add", "AddW", "EncDec", "DecodeNew", "Concat"}, Q: 4, QDen: 8, Depth: c.pick(3, 4)}
+	tree := &SketchGen{Init: plainExact(2, "plain"), Tokens: []int{10, 15, -11, 0}, Weights: []int{6, 132}, Ops: []string{"Add", "AddW", "EncDec", "DecodeNew", "Concat"}, Q: 4, QDen: 8, Depth: 3}
 	c.runSketchGen(tree, mx, c.pick(6, 12), "exhaustive tree with encode/decode")
 	inits := [][]SketchInit{
 		sketches("plain", ex0, ex0, ex0, ex0, ex0, ex0),
